@@ -3,67 +3,17 @@
     that expression's tree on its stack. *)
 From PegV Require Import Base.Tac Base.ListX Spec.Syntax Model.Calls Model.Front Proofs.FrontProofs
   Reader.Base Reader.Lex Reader.Chars Reader.Lits Reader.Expr.
+From PegV Require Export Reader.BridgeDefs.
 Local Open Scope Z_scope.
 
 Section Bridge.
 Variable nm : list rune -> nat.          (* the number a rule name stands for in the model *)
 Variable ak : list rune -> nat.          (* the number of an action / predicate text *)
+Notation erase := (BridgeDefs.erase nm ak).
+Notation bop_of := (BridgeDefs.bop_of nm ak).
+Notation bops := (BridgeDefs.bops nm ak).
+Notation build := (BridgeDefs.build nm ak).
 
-
-Definition sch (k : cchar) : schar :=
-  match k with
-  | KRaw c => SC c
-  | KEsc c => SC (esc_val c)
-  | KHex _ ds => SHex (map hexval ds)
-  | KOct ds => SOct (map octval ds)
-  end.
-Definition sitem (i : Lits.citem) : Front.citem :=
-  match i with IChar k => CChar (sch k) | IRange lo hi => CRange (sch lo) (sch hi) end.
-
-Fixpoint erase (e : cx) : sx :=
-  match e with
-  | Expr.XDot _ => Front.XDot
-  | Expr.XName id _ => Front.XName (nm id)
-  | Expr.XAct a _ => Front.XAct (ak a)
-  | Expr.XLit dbl ks _ => if dbl then Front.XILit (map sch ks) else Front.XLit (map sch ks)
-  | Expr.XClass dbl neg items _ => Front.XClass neg dbl (map sitem items)
-  | Expr.XGroup _ e _ => Front.XGroup (erase e)
-  | Expr.XPush _ e _ => Front.XPush (erase e)
-  | XSuf op e _ => if op =? 63 then XQuery (erase e) else if op =? 42 then XStar (erase e) else XPlus (erase e)
-  | XPre op _ e => if op =? 38 then XAnd (erase e) else XNot (erase e)
-  | XPredA op _ a _ => if op =? 38 then XPred (ak a) else XState (ak a)
-  | Expr.XSeq l => Front.XSeq (map erase l)
-  | Expr.XAlt e1 l trail => Front.XAlt (erase e1 :: map (fun sx : list rune * cx => erase (snd sx)) l) (match trail with Some _ => true | None => false end)
-  | XEmpty => XNil
-  end.
-
-(** one builder call, as the model's builder operation *)
-Definition bop_of (c : call) : option bop :=
-  match c with
-  | (CAddName, id) => Some (BName (nm id))
-  | (CAddDot, _) => Some BDot
-  | (CAddCharacter, [c]) => Some (BChar c)
-  | (CAddDoubleCharacter, [c]) => Some (BDoubleChar c)
-  | (CAddHexaCharacter, ds) => Some (BHexa (map hexval ds))
-  | (CAddOctalCharacter, ds) => Some (BOctal (map octval ds))
-  | (CAddPredicate, a) => Some (BPred (ak a))
-  | (CAddStateChange, a) => Some (BState (ak a))
-  | (CAddNil, _) => Some BNil
-  | (CAddAction, a) => Some (BAct (ak a))
-  | (CAddAlternate, _) => Some BAlternate
-  | (CAddSequence, _) => Some BSequence
-  | (CAddRange, _) => Some BRange
-  | (CAddDoubleRange, _) => Some BDoubleRange
-  | (CAddPeekFor, _) => Some BPeekFor
-  | (CAddPeekNot, _) => Some BPeekNot
-  | (CAddQuery, _) => Some BQuery
-  | (CAddStar, _) => Some BStar
-  | (CAddPlus, _) => Some BPlus
-  | (CAddPush, _) => Some BPush
-  | _ => None
-  end.
-Definition bops (cs : list call) : list (option bop) := map bop_of cs.
-Definition somes (l : list bop) : list (option bop) := map Some l.
 
 Lemma bops_app a b : bops (a ++ b) = bops a ++ bops b.
 Proof. apply map_app. Qed.
@@ -217,18 +167,8 @@ Proof.
     apply IH; [pose proof (size_in_alt e1 sx l trail Hin); cbn [size] in *; lia|apply Hall; exact Hin].
 Qed.
 
-(** running a list of calls through the builder *)
-Fixpoint all_some {A} (l : list (option A)) : option (list A) :=
-  match l with
-  | [] => Some []
-  | Some a :: l' => match all_some l' with Some r => Some (a :: r) | None => None end
-  | None :: _ => None
-  end.
 Lemma all_some_somes {A} (l : list A) : all_some (map Some l) = Some l.
 Proof. induction l as [|a l IH]; [reflexivity|]. cbn [map all_some]. rewrite IH. reflexivity. Qed.
-Definition build (cs : list call) (stk : list expr) : option (list expr) :=
-  match all_some (bops cs) with Some ops => brun ops stk | None => None end.
-
 Theorem calls_build_the_tree e : wf e ->
   exists tree, elab (erase e) = Some tree /\ forall stk, build (xcalls e) stk = Some (tree :: stk).
 Proof.
